@@ -116,14 +116,20 @@ impl<F: Read + Seek> BufRead for Stream<F> {
             let stream_id = self.stream_id;
             let offset = self.buf_offset_from_start;
             let minialloc = self.minialloc()?;
-            self.buffer.refill_with(remaining, |buf| {
+            let refilled = self.buffer.refill_with(remaining, |buf| {
                 read_data_from_stream(
                     &mut minialloc.write().unwrap(),
                     stream_id,
                     offset,
                     buf,
                 )
-            })?;
+            });
+            if refilled.is_err() {
+                // The window has already moved; don't let a retry serve the
+                // previous window's bytes as if they belonged to this one.
+                self.buffer.clear();
+            }
+            refilled?;
         }
         Ok(self.buffer.remaining_slice())
     }
